@@ -84,7 +84,13 @@ func (w *vWorld) memBase() uint64 { return vMemBase0 + w.epoch*vMemEpoch }
 
 // vCompile lowers every local function of the binary with the real front end and passes.
 func vCompile(bin []byte, ensureTermination, listeners bool) (*vWorld, error) {
-	m, err := binary.DecodeModule(bin, verifSSAFeatures, 65536, false, false, false)
+	return vCompileCfg(bin, ensureTermination, listeners, false, false, false)
+}
+
+// vCompileCfg: as vCompile with the decode-time options that are NOT part of the module identity (the compilation cache
+// key): memory capacity from max, DWARF, custom sections.
+func vCompileCfg(bin []byte, ensureTermination, listeners, capFromMax, dwarf, customSections bool) (*vWorld, error) {
+	m, err := binary.DecodeModule(bin, verifSSAFeatures, 65536, capFromMax, dwarf, customSections)
 	if err != nil {
 		return nil, err
 	}
@@ -820,6 +826,14 @@ func VProgram(set string, i int) (bin []byte, params, results []byte, mem bool, 
 		spec.GlobalInits = append(spec.GlobalInits, int64(g+1))
 	}
 	return interpreter.VerifEncode(spec), p.params, p.results, p.mem, p.globals, p.name, count
+}
+
+// VProgramLoopMax: non-zero when parameter 0 of the program is a loop counter that must be assumed in 1..max.
+func VProgramLoopMax(set string, i int) uint32 {
+	if set == "T3" && i < len(vT3) {
+		return vT3[i].loopMax
+	}
+	return 0
 }
 
 // VTrapKind maps an exit code to the shared trap kinds.
